@@ -542,7 +542,7 @@ def jobs_for(pid, tier):
     def micro(tag, mode, adv, cap, classes, fams, **c):
         consts = {"Cap": cap, "Classes": classes, "Adv": adv, "Budget": 0 if adv else 1}
         consts.update(c)
-        return dict(tag=tag, spec="micro", mode=mode, family=fams, consts=consts)
+        return dict(tag=tag, spec="micro", mode=mode, family=fams, consts=consts, timeout=3600)
 
     if q:
         micro_inject = [micro("mi-map-n%d" % n, "map", False, n, [1, 2, 3], MFAM) for n in (1, 2)] + \
